@@ -74,13 +74,14 @@ Proof. intros H. change 255 with (Z.ones 8). rewrite Z.land_ones by lia. reflexi
 Section CellOk.
 Variable ffmt : Z -> Z -> bytes.
 Variable tz : Z -> Z.
+Variable efmt : Z -> bytes.
 Variable jsonp : bytes -> res bytes.
 
 (* the cell lemma: value decoder and length rule agree with the encoder and the canonical text *)
 Definition cell_ok (ty : coltype) (uns : bool) (v : value) : Prop :=
   forall pre rest,
     cell_bytes ffmt tz jsonp (pre ++ enc_cell ty v ++ rest) (length pre) (code_of ty) (meta_of ty) uns
-      = Ok (Some (text ffmt tz ty uns v), len (enc_cell ty v))
+      = Ok (Some (text ffmt tz efmt ty uns v), len (enc_cell ty v))
     /\ cell_length (pre ++ enc_cell ty v ++ rest) (length pre) (code_of ty) (meta_of ty)
       = Ok (len (enc_cell ty v)).
 End CellOk.
